@@ -57,8 +57,9 @@ Symbol::SafetyCheck Symbol::check_safety(const Type& type) const noexcept
     return SAFE_EQU;
   else if (level() > 0)
   {
-    /* qualified or undefined table */
-    if (type.level() > 0)
+    /* an undefined table can be qualified by any table; a qualified table
+     * keeps its type of element and its dimension */
+    if (type.level() > 0 && (major() == Type::NO_TYPE || (major() == type.major() && level() == type.level())))
       return SAFE_UPG;
   }
   else if (type.level() == 0)
